@@ -47,6 +47,47 @@ def _dup_chunk(chunk):
     return len(chunk), nt, fails
 
 
+def _rules_chunk(chunk):
+    """the whole manifest written by the real NinjaBuild.write: every rule a build statement names (the _RSP flavour
+    included) is defined, exactly once"""
+    import re
+    fails, nt = [], 0
+    from mesonbuild.backend import ninjabackend as nb
+    old = nb.rsp_threshold
+    try:
+        for spec in chunk:
+            nb.rsp_threshold = 200
+            b = nb.NinjaBuild()
+            for rn in ('R', 'S'):
+                b.add_rule(nb.NinjaRule(rn, ['tool'], nb.NinjaCommandArg.list(['$ARGS', '$in'], nb.Quoting.none), 'desc', rspable=True))
+            b.add_rule(nb.NinjaRule('PLAIN', ['cp', '$in', '$out'], [], 'desc'))
+            outs = set()
+            for i, (rn, long_) in enumerate(spec):
+                e = nb.NinjaBuildElement(outs, f'o{i}', rn, 'in.c')
+                if rn != 'PLAIN':
+                    e.add_item('ARGS', ['-DX' + 'y' * (400 if long_ else 3)])
+                b.add_build(e)
+            f = io.StringIO()
+            nt += 1
+            try:
+                b.write(f)
+            except Exception as ex:
+                fails.append({'case': {'statements': [list(x) for x in spec]}, 'stage': 'rules', 'detail': f'{type(ex).__name__}: {ex}'})
+                continue
+            text = f.getvalue()
+            defined = re.findall(r'^rule (\S+)', text, re.M)
+            used = re.findall(r'^build [^:]*: (\S+)', text, re.M)
+            for u in used:
+                if u != 'phony' and u not in defined:
+                    fails.append({'case': {'statements': [list(x) for x in spec]}, 'stage': 'rules', 'detail': f'a build statement uses rule {u!r}, which the manifest does not define (defined: {sorted(set(defined))})'})
+                    break
+            if len(defined) != len(set(defined)):
+                fails.append({'case': {'statements': [list(x) for x in spec]}, 'stage': 'rules', 'detail': f'a rule is defined twice: {sorted(defined)}'})
+    finally:
+        nb.rsp_threshold = old
+    return len(chunk), nt, fails
+
+
 _SEED_PROG = r'''
 import io, sys
 sys.path.insert(0, sys.argv[1])
@@ -56,6 +97,46 @@ e = nb.NinjaBuildElement(set(), ['out'], 'phony', ['in'])
 e.add_dep(list(names)); e.add_orderdep(list(reversed(names)))
 f = io.StringIO(); e.write(f); sys.stdout.write(f.getvalue())
 '''
+
+
+_HELPER_PROG = r'''
+import sys
+sys.path.insert(0, sys.argv[1])
+from mesonbuild.utils.universal import OrderedSet
+names = sys.argv[2].split(',')
+s = OrderedSet(names)
+out = []
+out.append(list(s.difference({names[0]})))
+out.append(list(s.difference(set(names[::2]))))
+out.append(list(s.difference(names[1::2])))
+t = OrderedSet(names); t.difference_update(set(names[1::2])); out.append(list(t))
+t = OrderedSet(reversed(names)); t.update(names); out.append(list(t))
+t = OrderedSet(names); t.discard(names[-1]); t.add(names[-1]); out.append(list(t))
+out.append(list(reversed(OrderedSet(names))))
+sys.stdout.write(repr(out))
+'''
+
+
+def _helper_chunk(chunk):
+    """the order-preserving container the generators rely on (OrderedSet): every operation yields the insertion order,
+    under every PYTHONHASHSEED"""
+    fails, nt = [], 0
+    repo = os.environ.get('VERIF_REPO', '/repo')
+    for names in chunk:
+        names = list(names)
+        uniq = list(dict.fromkeys(names))
+        exp = [[x for x in uniq if x != names[0]], [x for x in uniq if x not in set(names[::2])], [x for x in uniq if x not in names[1::2]],
+               [x for x in uniq if x not in set(names[1::2])], list(dict.fromkeys(list(reversed(names)) + names)),
+               [x for x in uniq if x != names[-1]] + [names[-1]], list(reversed(uniq))]
+        for seed in ('0', '1', '2', '3', '7', '11'):
+            env = dict(os.environ, PYTHONHASHSEED=seed)
+            r = subprocess.run([sys.executable, '-c', _HELPER_PROG, repo, ','.join(names)], capture_output=True, text=True, env=env)
+            got = r.stdout if r.returncode == 0 else 'ERR ' + r.stderr[-200:]
+            if got != repr(exp):
+                fails.append({'case': {'names': names}, 'stage': 'hash-seed', 'detail': f'under PYTHONHASHSEED={seed} the OrderedSet operations yield {got[:200]}, insertion order gives {repr(exp)[:200]}'})
+                break
+        nt += 1
+    return len(chunk) * 6, nt, fails
 
 
 def _order_chunk(chunk):
@@ -83,6 +164,11 @@ def run(REG, tier, seed, jobs):
     ev, nt, fails = pmap(_dup_chunk, chunked(specs, 100), jobs)
     parts.append({'name': 'C04/bounded/no-path-produced-twice', 'function': 'NinjaBuild.add_build / NinjaBuildElement.check_outputs / write', 'bound': f'all sequences of <= {k} build statements over {len(stmts)} statement shapes (rule R or phony x output lists over a,b,c)',
                   'evaluations': ev, 'distinct_nontrivial': nt, 'rule': 'non-trivial: some path has two producers', 'exhaustive': True, 'failures': fails})
+    shapes = [(r, l) for r in ('R', 'S') for l in (False, True)] + [('PLAIN', False)]
+    specs = list(itertools.chain.from_iterable(itertools.product(shapes, repeat=j) for j in range(1, 5)))
+    ev, nt, fails = pmap(_rules_chunk, chunked(iter(specs), 60), jobs)
+    parts.append({'name': 'C04/bounded/every-statement-uses-a-defined-rule', 'function': 'NinjaBuild.write / NinjaRule.write / count_rule_references', 'bound': f'{len(specs)} manifests: all sequences of <= 4 build statements over 2 response-file-capable rules (short or long command line) and a plain rule',
+                  'evaluations': ev, 'distinct_nontrivial': nt, 'rule': 'every manifest', 'exhaustive': True, 'failures': fails})
     return {'parts': parts}
 
 
@@ -130,6 +216,10 @@ def _rid_chunk(chunk):
 
 def run_c06(REG, tier, seed, jobs):
     parts = []
+    hsets = [('-DNDEBUG', '-I/usr/include', '-D_GNU_SOURCE', '-DA', '-Wall', '-fPIC'), ('/usr/bin', '/bin', '/usr/local/bin', '/opt/x/bin'), ('b', 'a', 'c', 'a', 'd'), ('zeta', 'alpha', 'Beta', 'beta', 'x y')]
+    ev, nt, fails = pmap(_helper_chunk, chunked(iter(hsets), 1), min(jobs, len(hsets)))
+    parts.append({'name': 'C06/bounded/ordered-set-operations-independent-of-hash-seed', 'function': 'OrderedSet (difference, difference_update, update, discard/add, reversed)', 'bound': f'{len(hsets)} element lists x 7 operations x 6 PYTHONHASHSEED values in fresh interpreters, compared with the insertion order',
+                  'evaluations': ev, 'distinct_nontrivial': nt, 'rule': 'every list', 'exhaustive': True, 'failures': fails})
     sizes = [0, 1, 15, 16, 17, BLK - 1, BLK, BLK + 1, 2 * BLK, 4096, 8192, 131072 + 5]
     if tier != 'quick':
         sizes += [1 << k for k in range(9, 21)] + [3 * BLK, 1000, 1000000]
@@ -146,6 +236,8 @@ def run_c06(REG, tier, seed, jobs):
 
 
 CHECKS = {
+    'C06/bounded/ordered-set-operations-independent-of-hash-seed': (_helper_chunk, lambda c: tuple(c['names'])),
+    'C04/bounded/every-statement-uses-a-defined-rule': (_rules_chunk, lambda c: tuple(tuple(x) for x in c['statements'])),
     'C06/bounded/replace_if_different-on-real-files': (_rid_chunk, lambda c: (None if c['old'] is None else tuple(c['old']), tuple(c['new']))),
     'C04/bounded/no-path-produced-twice': (_dup_chunk, lambda c: tuple((r, tuple(o)) for r, o in c['statements'])),
     'C06/bounded/deps-text-independent-of-hash-seed': (_order_chunk, lambda c: tuple(c['deps'])),
